@@ -76,7 +76,7 @@ def warm():
 
 def gen_world(t):
     spec = worlds.gen_syn(t, allow_m=t.chance(1, 2), max_pts=80, max_structs=4, max_vars=3,
-                          pools=["normalised"])
+                          pools=["normalised"], hostile=t.chance(1, 2))
     worlds.normalise(t, spec)
     return spec
 
